@@ -97,13 +97,13 @@ def suite_labels(seed, tier):
         nb = rng.randint(1, 3)
         protos = None
         batches = []
-        tall = (_case % 60 == 7)          # clusters of 128..255 and more members (uint8 / uint16 sums)
+        tall = (_case % 60 in (7, 27))    # clusters of 128..255 members / of more than 255 (uint8 / uint16 sums)
         for _b in range(nb):
             rows, protos = hist.gen_fps(rng, rng.randint(2, 18), nf, protos)
             batches.append(rows)
         if tall:
             base = [1 if j % 2 == 0 else 0 for j in range(nf)]
-            over = (_case % 120 == 7)     # the big cluster passes 255 members
+            over = (_case % 60 == 7)      # the big cluster passes 255 members
             fam = []
             for _k in range(rng.choice([300, 340]) if over else rng.choice([150, 230])):
                 row = list(base)
